@@ -89,6 +89,10 @@ pub struct Model {
     pub duplicate_ids: Vec<String>,
     /// number of `EncodeNow` operations so far (an encoding in the middle of a history)
     pub encodes: u32,
+    /// (module, field, type index) of imports that were requested with an explicit type
+    pub import_types: Vec<(String, String, u32)>,
+    /// the base's types 0 and 1 are both `(func)`
+    pub twin_type: bool,
 }
 
 fn mx(e: &[RawExpr]) -> Vec<MExpr> {
@@ -105,6 +109,7 @@ impl Model {
     /// The initial model is the decoded base itself: handles are the base's indices.
     pub fn from_base(v: &RawView) -> Model {
         let mut m = Model::default();
+        m.twin_type = v.twin_types01;
         let declared: Vec<u32> = v
             .elems
             .iter()
@@ -383,6 +388,9 @@ pub enum Op {
     AddImportFunc,
     DeleteFunc(u32),
     LocalToImport(u32),
+    /// like LocalToImport, but the import is requested with type index 1, a structurally identical twin
+    /// of the function's own type 0 (bases whose types 0 and 1 are both `(func)`)
+    LocalToImportTwin(u32),
     ImportToLocal(u32),
     /// kind: 0 call, 1 return_call, 2 ref.func; api: see `INJECT_APIS`
     InjectFn { owner: u32, kind: u8, target: u32, api: u8 },
@@ -439,6 +447,7 @@ impl Op {
             Op::AddImportFunc => "AddImportFunc".into(),
             Op::DeleteFunc(_) => "DeleteFunc".into(),
             Op::LocalToImport(_) => "LocalToImport".into(),
+            Op::LocalToImportTwin(_) => "LocalToImport.twin-type".into(),
             Op::ImportToLocal(_) => "ImportToLocal".into(),
             Op::InjectFn { kind, api, .. } => format!("InjectFn.{}.{}", ["call", "return_call", "ref.func"][*kind as usize], INJECT_APIS[*api as usize]),
             Op::AddExportFunc(_) => "AddExportFunc".into(),
@@ -671,10 +680,14 @@ pub fn apply<'a>(op: &Op, module: &mut Module<'a>, model: &mut Model) {
                 f.live = false;
             }
         }
-        Op::LocalToImport(h) => {
+        Op::LocalToImport(h) | Op::LocalToImportTwin(h) => {
             let n = model.next_name;
             model.next_name += 1;
-            let ty = module.functions.get_type_id(FunctionID(*h));
+            let mut ty = module.functions.get_type_id(FunctionID(*h));
+            if matches!(op, Op::LocalToImportTwin(_)) {
+                ty = wirm::ir::id::TypeID(1);
+                model.import_types.push(("conv".into(), format!("c{}", n), 1));
+            }
             let ok = module.convert_local_fn_to_import(FunctionID(*h), "conv".to_string(), format!("c{}", n), ty);
             assert!(ok, "library: convert_local_fn_to_import refused a function the model holds as local");
             if let Some(f) = model.func_mut(*h) {
